@@ -28,8 +28,13 @@ package pattern
 //   record: a name bound by this call is recorded in the top frame
 //   exact:  a bit newly set in the top frame belongs to a name bound by this call
 //   keep:   bits of the top frame are never cleared
+// no AST node is a pattern node: the go/ast interfaces have unexported marker methods, so only
+// go/ast types implement them, and none of those has a Match method (assumed)
+//@ axiom [ast_plain] forall v any :: {dyntype(v)} (istype(v, ast.Expr) || istype(v, ast.Stmt) || istype(v, ast.Decl)) ==> !istype(v, matcher) && !istype(v, Node)
 //@ func match
-//@   trusted
+//@   may_panic
+//@   nosafe   all
+//@   ifacetyping
 //@   requires m != nil && wfM(m.bindingsMapping, m.setBindings)
 //@   modifies m.State, m.setBindings
 //@   ensures  [stack]  len(m.setBindings) == len(old(m.setBindings)) && (forall j int :: {m.setBindings[j]} 0 <= j && j < len(m.setBindings) - 1 ==> m.setBindings[j] == old(m.setBindings)[j])
@@ -38,6 +43,278 @@ package pattern
 //@   ensures  [exact]  forall i int :: {bit(m.setBindings[len(m.setBindings)-1], i)} 0 <= i && i < len(m.bindingsMapping) && bit(m.setBindings[len(m.setBindings)-1], i) && !bit(old(m.setBindings)[len(m.setBindings)-1], i) ==> (m.bindingsMapping[i] in m.State) && !(m.bindingsMapping[i] in old(m.State))
 //@   ensures  [keep]   forall i int :: {bit(m.setBindings[len(m.setBindings)-1], i)} 0 <= i && i < 64 && bit(old(m.setBindings)[len(m.setBindings)-1], i) ==> bit(m.setBindings[len(m.setBindings)-1], i)
 //@   ensures  [nonnil] m.State != nil || old(m.State) == nil
+// structural equality of plain AST values (what a recalled binding is compared with): a list
+// equals a single node only if it has exactly one element (a block statement / field list
+// stands for its list, a labelled statement for the statement it labels)
+//@   ensures  [one_expr_l]  result1 && istype(l, []ast.Expr) && !istype(r, []ast.Expr) ==> len(astype(l, []ast.Expr)) == 1
+//@   ensures  [one_stmt_l]  result1 && istype(l, []ast.Stmt) && !istype(r, []ast.Stmt) && !istype(r, *ast.BlockStmt) && !istype(r, *ast.LabeledStmt) ==> len(astype(l, []ast.Stmt)) == 1
+//@   ensures  [one_field_l] result1 && istype(l, []*ast.Field) && !istype(r, []*ast.Field) && !istype(r, *ast.FieldList) ==> len(astype(l, []*ast.Field)) == 1
+//@   ensures  [one_expr_r]  result1 && istype(r, []ast.Expr) && !istype(l, []ast.Expr) && !istype(l, matcher) && !istype(l, Node) ==> len(astype(r, []ast.Expr)) == 1
+//@   ensures  [one_stmt_r]  result1 && istype(r, []ast.Stmt) && !istype(l, []ast.Stmt) && !istype(l, *ast.BlockStmt) && !istype(l, *ast.LabeledStmt) && !istype(l, matcher) && !istype(l, Node) ==> len(astype(r, []ast.Stmt)) == 1
+//@   ensures  [one_field_r] result1 && istype(r, []*ast.Field) && !istype(l, []*ast.Field) && !istype(l, *ast.FieldList) && !istype(l, matcher) && !istype(l, Node) ==> len(astype(r, []*ast.Field)) == 1
+//@   loop 1   modifies m.State, m.setBindings
+//@   loop 1   invariant [stack]  len(m.setBindings) == len(old(m.setBindings)) && (forall j int :: {m.setBindings[j]} 0 <= j && j < len(m.setBindings) - 1 ==> m.setBindings[j] == old(m.setBindings)[j])
+//@   loop 1   invariant [grow]   forall n string :: {n in m.State} (n in old(m.State)) ==> (n in m.State) && m.State[n] == old(m.State)[n]
+//@   loop 1   invariant [record] forall n string :: {n in m.State} (n in m.State) && !(n in old(m.State)) ==> named(m.bindingsMapping, m.setBindings[len(m.setBindings)-1], n)
+//@   loop 1   invariant [exact]  forall i int :: {bit(m.setBindings[len(m.setBindings)-1], i)} 0 <= i && i < len(m.bindingsMapping) && bit(m.setBindings[len(m.setBindings)-1], i) && !bit(old(m.setBindings)[len(m.setBindings)-1], i) ==> (m.bindingsMapping[i] in m.State) && !(m.bindingsMapping[i] in old(m.State))
+//@   loop 1   invariant [keep]   forall i int :: {bit(m.setBindings[len(m.setBindings)-1], i)} 0 <= i && i < 64 && bit(old(m.setBindings)[len(m.setBindings)-1], i) ==> bit(m.setBindings[len(m.setBindings)-1], i)
+//@   loop 1   invariant [nonnil] m.State != nil || old(m.State) == nil
+//@   loop 2   modifies m.State, m.setBindings
+//@   loop 2   invariant [stack]  len(m.setBindings) == len(old(m.setBindings)) && (forall j int :: {m.setBindings[j]} 0 <= j && j < len(m.setBindings) - 1 ==> m.setBindings[j] == old(m.setBindings)[j])
+//@   loop 2   invariant [grow]   forall n string :: {n in m.State} (n in old(m.State)) ==> (n in m.State) && m.State[n] == old(m.State)[n]
+//@   loop 2   invariant [record] forall n string :: {n in m.State} (n in m.State) && !(n in old(m.State)) ==> named(m.bindingsMapping, m.setBindings[len(m.setBindings)-1], n)
+//@   loop 2   invariant [exact]  forall i int :: {bit(m.setBindings[len(m.setBindings)-1], i)} 0 <= i && i < len(m.bindingsMapping) && bit(m.setBindings[len(m.setBindings)-1], i) && !bit(old(m.setBindings)[len(m.setBindings)-1], i) ==> (m.bindingsMapping[i] in m.State) && !(m.bindingsMapping[i] in old(m.State))
+//@   loop 2   invariant [keep]   forall i int :: {bit(m.setBindings[len(m.setBindings)-1], i)} 0 <= i && i < 64 && bit(old(m.setBindings)[len(m.setBindings)-1], i) ==> bit(m.setBindings[len(m.setBindings)-1], i)
+//@   loop 2   invariant [nonnil] m.State != nil || old(m.State) == nil
+//@   loop 3   modifies m.State, m.setBindings
+//@   loop 3   invariant [stack]  len(m.setBindings) == len(old(m.setBindings)) && (forall j int :: {m.setBindings[j]} 0 <= j && j < len(m.setBindings) - 1 ==> m.setBindings[j] == old(m.setBindings)[j])
+//@   loop 3   invariant [grow]   forall n string :: {n in m.State} (n in old(m.State)) ==> (n in m.State) && m.State[n] == old(m.State)[n]
+//@   loop 3   invariant [record] forall n string :: {n in m.State} (n in m.State) && !(n in old(m.State)) ==> named(m.bindingsMapping, m.setBindings[len(m.setBindings)-1], n)
+//@   loop 3   invariant [exact]  forall i int :: {bit(m.setBindings[len(m.setBindings)-1], i)} 0 <= i && i < len(m.bindingsMapping) && bit(m.setBindings[len(m.setBindings)-1], i) && !bit(old(m.setBindings)[len(m.setBindings)-1], i) ==> (m.bindingsMapping[i] in m.State) && !(m.bindingsMapping[i] in old(m.State))
+//@   loop 3   invariant [keep]   forall i int :: {bit(m.setBindings[len(m.setBindings)-1], i)} 0 <= i && i < 64 && bit(old(m.setBindings)[len(m.setBindings)-1], i) ==> bit(m.setBindings[len(m.setBindings)-1], i)
+//@   loop 3   invariant [nonnil] m.State != nil || old(m.State) == nil
+// what `match` dispatches to: the Match method of a pattern node (proved for Binding, Or, Not;
+// assumed for the other node types, whose Match methods only call match / matchNodeAST), and
+// the two reflective walks over AST nodes
+//@ extern (honnef.co/go/tools/pattern.matcher).Match(m *Matcher, node any) (res any, ok bool)
+//@   requires m != nil && wfM(m.bindingsMapping, m.setBindings)
+//@   modifies m.State, m.setBindings
+//@   ensures  [stack]  len(m.setBindings) == len(old(m.setBindings)) && (forall j int :: {m.setBindings[j]} 0 <= j && j < len(m.setBindings) - 1 ==> m.setBindings[j] == old(m.setBindings)[j])
+//@   ensures  [grow]   forall n string :: {n in m.State} (n in old(m.State)) ==> (n in m.State) && m.State[n] == old(m.State)[n]
+//@   ensures  [record] forall n string :: {n in m.State} (n in m.State) && !(n in old(m.State)) ==> named(m.bindingsMapping, m.setBindings[len(m.setBindings)-1], n)
+//@   ensures  [exact]  forall i int :: {bit(m.setBindings[len(m.setBindings)-1], i)} 0 <= i && i < len(m.bindingsMapping) && bit(m.setBindings[len(m.setBindings)-1], i) && !bit(old(m.setBindings)[len(m.setBindings)-1], i) ==> (m.bindingsMapping[i] in m.State) && !(m.bindingsMapping[i] in old(m.State))
+//@   ensures  [keep]   forall i int :: {bit(m.setBindings[len(m.setBindings)-1], i)} 0 <= i && i < 64 && bit(old(m.setBindings)[len(m.setBindings)-1], i) ==> bit(m.setBindings[len(m.setBindings)-1], i)
+//@   ensures  [nonnil] m.State != nil || old(m.State) == nil
+//@ func matchNodeAST
+//@   requires m != nil && wfM(m.bindingsMapping, m.setBindings)
+//@   may_panic
+//@   nosafe   all
+//@   modifies m.State, m.setBindings
+//@   ensures  [stack]  len(m.setBindings) == len(old(m.setBindings)) && (forall j int :: {m.setBindings[j]} 0 <= j && j < len(m.setBindings) - 1 ==> m.setBindings[j] == old(m.setBindings)[j])
+//@   ensures  [grow]   forall n string :: {n in m.State} (n in old(m.State)) ==> (n in m.State) && m.State[n] == old(m.State)[n]
+//@   ensures  [record] forall n string :: {n in m.State} (n in m.State) && !(n in old(m.State)) ==> named(m.bindingsMapping, m.setBindings[len(m.setBindings)-1], n)
+//@   ensures  [exact]  forall i int :: {bit(m.setBindings[len(m.setBindings)-1], i)} 0 <= i && i < len(m.bindingsMapping) && bit(m.setBindings[len(m.setBindings)-1], i) && !bit(old(m.setBindings)[len(m.setBindings)-1], i) ==> (m.bindingsMapping[i] in m.State) && !(m.bindingsMapping[i] in old(m.State))
+//@   ensures  [keep]   forall i int :: {bit(m.setBindings[len(m.setBindings)-1], i)} 0 <= i && i < 64 && bit(old(m.setBindings)[len(m.setBindings)-1], i) ==> bit(m.setBindings[len(m.setBindings)-1], i)
+//@   ensures  [nonnil] m.State != nil || old(m.State) == nil
+//@   loop 1   modifies m.State, m.setBindings
+//@   loop 1   invariant [stack]  len(m.setBindings) == len(old(m.setBindings)) && (forall j int :: {m.setBindings[j]} 0 <= j && j < len(m.setBindings) - 1 ==> m.setBindings[j] == old(m.setBindings)[j])
+//@   loop 1   invariant [grow]   forall n string :: {n in m.State} (n in old(m.State)) ==> (n in m.State) && m.State[n] == old(m.State)[n]
+//@   loop 1   invariant [record] forall n string :: {n in m.State} (n in m.State) && !(n in old(m.State)) ==> named(m.bindingsMapping, m.setBindings[len(m.setBindings)-1], n)
+//@   loop 1   invariant [exact]  forall i int :: {bit(m.setBindings[len(m.setBindings)-1], i)} 0 <= i && i < len(m.bindingsMapping) && bit(m.setBindings[len(m.setBindings)-1], i) && !bit(old(m.setBindings)[len(m.setBindings)-1], i) ==> (m.bindingsMapping[i] in m.State) && !(m.bindingsMapping[i] in old(m.State))
+//@   loop 1   invariant [keep]   forall i int :: {bit(m.setBindings[len(m.setBindings)-1], i)} 0 <= i && i < 64 && bit(old(m.setBindings)[len(m.setBindings)-1], i) ==> bit(m.setBindings[len(m.setBindings)-1], i)
+//@   loop 1   invariant [nonnil] m.State != nil || old(m.State) == nil
+//@ func matchAST
+//@   requires m != nil && wfM(m.bindingsMapping, m.setBindings)
+//@   may_panic
+//@   nosafe   all
+//@   modifies m.State, m.setBindings
+//@   ensures  [stack]  len(m.setBindings) == len(old(m.setBindings)) && (forall j int :: {m.setBindings[j]} 0 <= j && j < len(m.setBindings) - 1 ==> m.setBindings[j] == old(m.setBindings)[j])
+//@   ensures  [grow]   forall n string :: {n in m.State} (n in old(m.State)) ==> (n in m.State) && m.State[n] == old(m.State)[n]
+//@   ensures  [record] forall n string :: {n in m.State} (n in m.State) && !(n in old(m.State)) ==> named(m.bindingsMapping, m.setBindings[len(m.setBindings)-1], n)
+//@   ensures  [exact]  forall i int :: {bit(m.setBindings[len(m.setBindings)-1], i)} 0 <= i && i < len(m.bindingsMapping) && bit(m.setBindings[len(m.setBindings)-1], i) && !bit(old(m.setBindings)[len(m.setBindings)-1], i) ==> (m.bindingsMapping[i] in m.State) && !(m.bindingsMapping[i] in old(m.State))
+//@   ensures  [keep]   forall i int :: {bit(m.setBindings[len(m.setBindings)-1], i)} 0 <= i && i < 64 && bit(old(m.setBindings)[len(m.setBindings)-1], i) ==> bit(m.setBindings[len(m.setBindings)-1], i)
+//@   ensures  [nonnil] m.State != nil || old(m.State) == nil
+//@   loop 1   modifies m.State, m.setBindings
+//@   loop 1   invariant [stack]  len(m.setBindings) == len(old(m.setBindings)) && (forall j int :: {m.setBindings[j]} 0 <= j && j < len(m.setBindings) - 1 ==> m.setBindings[j] == old(m.setBindings)[j])
+//@   loop 1   invariant [grow]   forall n string :: {n in m.State} (n in old(m.State)) ==> (n in m.State) && m.State[n] == old(m.State)[n]
+//@   loop 1   invariant [record] forall n string :: {n in m.State} (n in m.State) && !(n in old(m.State)) ==> named(m.bindingsMapping, m.setBindings[len(m.setBindings)-1], n)
+//@   loop 1   invariant [exact]  forall i int :: {bit(m.setBindings[len(m.setBindings)-1], i)} 0 <= i && i < len(m.bindingsMapping) && bit(m.setBindings[len(m.setBindings)-1], i) && !bit(old(m.setBindings)[len(m.setBindings)-1], i) ==> (m.bindingsMapping[i] in m.State) && !(m.bindingsMapping[i] in old(m.State))
+//@   loop 1   invariant [keep]   forall i int :: {bit(m.setBindings[len(m.setBindings)-1], i)} 0 <= i && i < 64 && bit(old(m.setBindings)[len(m.setBindings)-1], i) ==> bit(m.setBindings[len(m.setBindings)-1], i)
+//@   loop 1   invariant [nonnil] m.State != nil || old(m.State) == nil
+//@   loop 2   modifies m.State, m.setBindings
+//@   loop 2   invariant [stack]  len(m.setBindings) == len(old(m.setBindings)) && (forall j int :: {m.setBindings[j]} 0 <= j && j < len(m.setBindings) - 1 ==> m.setBindings[j] == old(m.setBindings)[j])
+//@   loop 2   invariant [grow]   forall n string :: {n in m.State} (n in old(m.State)) ==> (n in m.State) && m.State[n] == old(m.State)[n]
+//@   loop 2   invariant [record] forall n string :: {n in m.State} (n in m.State) && !(n in old(m.State)) ==> named(m.bindingsMapping, m.setBindings[len(m.setBindings)-1], n)
+//@   loop 2   invariant [exact]  forall i int :: {bit(m.setBindings[len(m.setBindings)-1], i)} 0 <= i && i < len(m.bindingsMapping) && bit(m.setBindings[len(m.setBindings)-1], i) && !bit(old(m.setBindings)[len(m.setBindings)-1], i) ==> (m.bindingsMapping[i] in m.State) && !(m.bindingsMapping[i] in old(m.State))
+//@   loop 2   invariant [keep]   forall i int :: {bit(m.setBindings[len(m.setBindings)-1], i)} 0 <= i && i < 64 && bit(old(m.setBindings)[len(m.setBindings)-1], i) ==> bit(m.setBindings[len(m.setBindings)-1], i)
+//@   loop 2   invariant [nonnil] m.State != nil || old(m.State) == nil
+//@ extern (*go/types.Info).ObjectOf(id *ast.Ident) types.Object
+//@   pure
+
+// library observers used by them: no effect on the matcher
+//@ extern (reflect.Value).Kind() reflect.Kind
+//@   pure
+//@ extern (reflect.Value).Len() int
+//@   pure
+//@ extern (reflect.Value).Index(i int) reflect.Value
+//@   pure
+//@ extern (reflect.Value).Slice(i int, j int) reflect.Value
+//@   pure
+//@ extern (reflect.Value).IsNil() bool
+//@   pure
+//@ extern (go/constant.Value).String() string
+//@   pure
+//@ extern (*go/types.Scope).Lookup(name string) types.Object
+//@   pure
+//@ extern (reflect.Value).Elem() reflect.Value
+//@   pure
+//@ extern (reflect.Value).Type() reflect.Type
+//@   pure
+//@ extern (reflect.Value).FieldByName(name string) reflect.Value
+//@   pure
+//@ extern (reflect.Value).String() string
+//@   pure
+//@ extern (reflect.Value).Int() int64
+//@   pure
+//@ extern (reflect.Value).Bool() bool
+//@   pure
+//@ extern (reflect.Type).Name() string
+//@   pure
+//@ extern (reflect.Type).Field(i int) reflect.StructField
+//@   pure
+// ast.Inspect calls f on AST nodes; f only writes a local of its caller here
+//@ extern go/ast.Inspect(node ast.Node, f func(ast.Node) bool)
+// ---- the Match methods of the remaining node types keep G (they only call match) ----
+//@ func (Any).Match
+//@   requires m != nil && wfM(m.bindingsMapping, m.setBindings)
+//@   may_panic
+//@   nosafe   all
+//@   modifies m.State, m.setBindings
+//@   ensures  [stack]  len(m.setBindings) == len(old(m.setBindings)) && (forall j int :: {m.setBindings[j]} 0 <= j && j < len(m.setBindings) - 1 ==> m.setBindings[j] == old(m.setBindings)[j])
+//@   ensures  [grow]   forall n string :: {n in m.State} (n in old(m.State)) ==> (n in m.State) && m.State[n] == old(m.State)[n]
+//@   ensures  [record] forall n string :: {n in m.State} (n in m.State) && !(n in old(m.State)) ==> named(m.bindingsMapping, m.setBindings[len(m.setBindings)-1], n)
+//@   ensures  [exact]  forall i int :: {bit(m.setBindings[len(m.setBindings)-1], i)} 0 <= i && i < len(m.bindingsMapping) && bit(m.setBindings[len(m.setBindings)-1], i) && !bit(old(m.setBindings)[len(m.setBindings)-1], i) ==> (m.bindingsMapping[i] in m.State) && !(m.bindingsMapping[i] in old(m.State))
+//@   ensures  [keep]   forall i int :: {bit(m.setBindings[len(m.setBindings)-1], i)} 0 <= i && i < 64 && bit(old(m.setBindings)[len(m.setBindings)-1], i) ==> bit(m.setBindings[len(m.setBindings)-1], i)
+//@   ensures  [nonnil] m.State != nil || old(m.State) == nil
+//@ func (List).Match
+//@   requires m != nil && wfM(m.bindingsMapping, m.setBindings)
+//@   may_panic
+//@   nosafe   all
+//@   modifies m.State, m.setBindings
+//@   ensures  [stack]  len(m.setBindings) == len(old(m.setBindings)) && (forall j int :: {m.setBindings[j]} 0 <= j && j < len(m.setBindings) - 1 ==> m.setBindings[j] == old(m.setBindings)[j])
+//@   ensures  [grow]   forall n string :: {n in m.State} (n in old(m.State)) ==> (n in m.State) && m.State[n] == old(m.State)[n]
+//@   ensures  [record] forall n string :: {n in m.State} (n in m.State) && !(n in old(m.State)) ==> named(m.bindingsMapping, m.setBindings[len(m.setBindings)-1], n)
+//@   ensures  [exact]  forall i int :: {bit(m.setBindings[len(m.setBindings)-1], i)} 0 <= i && i < len(m.bindingsMapping) && bit(m.setBindings[len(m.setBindings)-1], i) && !bit(old(m.setBindings)[len(m.setBindings)-1], i) ==> (m.bindingsMapping[i] in m.State) && !(m.bindingsMapping[i] in old(m.State))
+//@   ensures  [keep]   forall i int :: {bit(m.setBindings[len(m.setBindings)-1], i)} 0 <= i && i < 64 && bit(old(m.setBindings)[len(m.setBindings)-1], i) ==> bit(m.setBindings[len(m.setBindings)-1], i)
+//@   ensures  [nonnil] m.State != nil || old(m.State) == nil
+//@ func (String).Match
+//@   requires m != nil && wfM(m.bindingsMapping, m.setBindings)
+//@   may_panic
+//@   nosafe   all
+//@   modifies m.State, m.setBindings
+//@   ensures  [stack]  len(m.setBindings) == len(old(m.setBindings)) && (forall j int :: {m.setBindings[j]} 0 <= j && j < len(m.setBindings) - 1 ==> m.setBindings[j] == old(m.setBindings)[j])
+//@   ensures  [grow]   forall n string :: {n in m.State} (n in old(m.State)) ==> (n in m.State) && m.State[n] == old(m.State)[n]
+//@   ensures  [record] forall n string :: {n in m.State} (n in m.State) && !(n in old(m.State)) ==> named(m.bindingsMapping, m.setBindings[len(m.setBindings)-1], n)
+//@   ensures  [exact]  forall i int :: {bit(m.setBindings[len(m.setBindings)-1], i)} 0 <= i && i < len(m.bindingsMapping) && bit(m.setBindings[len(m.setBindings)-1], i) && !bit(old(m.setBindings)[len(m.setBindings)-1], i) ==> (m.bindingsMapping[i] in m.State) && !(m.bindingsMapping[i] in old(m.State))
+//@   ensures  [keep]   forall i int :: {bit(m.setBindings[len(m.setBindings)-1], i)} 0 <= i && i < 64 && bit(old(m.setBindings)[len(m.setBindings)-1], i) ==> bit(m.setBindings[len(m.setBindings)-1], i)
+//@   ensures  [nonnil] m.State != nil || old(m.State) == nil
+//@ func (Token).Match
+//@   requires m != nil && wfM(m.bindingsMapping, m.setBindings)
+//@   may_panic
+//@   nosafe   all
+//@   modifies m.State, m.setBindings
+//@   ensures  [stack]  len(m.setBindings) == len(old(m.setBindings)) && (forall j int :: {m.setBindings[j]} 0 <= j && j < len(m.setBindings) - 1 ==> m.setBindings[j] == old(m.setBindings)[j])
+//@   ensures  [grow]   forall n string :: {n in m.State} (n in old(m.State)) ==> (n in m.State) && m.State[n] == old(m.State)[n]
+//@   ensures  [record] forall n string :: {n in m.State} (n in m.State) && !(n in old(m.State)) ==> named(m.bindingsMapping, m.setBindings[len(m.setBindings)-1], n)
+//@   ensures  [exact]  forall i int :: {bit(m.setBindings[len(m.setBindings)-1], i)} 0 <= i && i < len(m.bindingsMapping) && bit(m.setBindings[len(m.setBindings)-1], i) && !bit(old(m.setBindings)[len(m.setBindings)-1], i) ==> (m.bindingsMapping[i] in m.State) && !(m.bindingsMapping[i] in old(m.State))
+//@   ensures  [keep]   forall i int :: {bit(m.setBindings[len(m.setBindings)-1], i)} 0 <= i && i < 64 && bit(old(m.setBindings)[len(m.setBindings)-1], i) ==> bit(m.setBindings[len(m.setBindings)-1], i)
+//@   ensures  [nonnil] m.State != nil || old(m.State) == nil
+//@ func (Nil).Match
+//@   requires m != nil && wfM(m.bindingsMapping, m.setBindings)
+//@   may_panic
+//@   nosafe   all
+//@   modifies m.State, m.setBindings
+//@   ensures  [stack]  len(m.setBindings) == len(old(m.setBindings)) && (forall j int :: {m.setBindings[j]} 0 <= j && j < len(m.setBindings) - 1 ==> m.setBindings[j] == old(m.setBindings)[j])
+//@   ensures  [grow]   forall n string :: {n in m.State} (n in old(m.State)) ==> (n in m.State) && m.State[n] == old(m.State)[n]
+//@   ensures  [record] forall n string :: {n in m.State} (n in m.State) && !(n in old(m.State)) ==> named(m.bindingsMapping, m.setBindings[len(m.setBindings)-1], n)
+//@   ensures  [exact]  forall i int :: {bit(m.setBindings[len(m.setBindings)-1], i)} 0 <= i && i < len(m.bindingsMapping) && bit(m.setBindings[len(m.setBindings)-1], i) && !bit(old(m.setBindings)[len(m.setBindings)-1], i) ==> (m.bindingsMapping[i] in m.State) && !(m.bindingsMapping[i] in old(m.State))
+//@   ensures  [keep]   forall i int :: {bit(m.setBindings[len(m.setBindings)-1], i)} 0 <= i && i < 64 && bit(old(m.setBindings)[len(m.setBindings)-1], i) ==> bit(m.setBindings[len(m.setBindings)-1], i)
+//@   ensures  [nonnil] m.State != nil || old(m.State) == nil
+//@ func (Builtin).Match
+//@   requires m != nil && wfM(m.bindingsMapping, m.setBindings)
+//@   may_panic
+//@   nosafe   all
+//@   modifies m.State, m.setBindings
+//@   ensures  [stack]  len(m.setBindings) == len(old(m.setBindings)) && (forall j int :: {m.setBindings[j]} 0 <= j && j < len(m.setBindings) - 1 ==> m.setBindings[j] == old(m.setBindings)[j])
+//@   ensures  [grow]   forall n string :: {n in m.State} (n in old(m.State)) ==> (n in m.State) && m.State[n] == old(m.State)[n]
+//@   ensures  [record] forall n string :: {n in m.State} (n in m.State) && !(n in old(m.State)) ==> named(m.bindingsMapping, m.setBindings[len(m.setBindings)-1], n)
+//@   ensures  [exact]  forall i int :: {bit(m.setBindings[len(m.setBindings)-1], i)} 0 <= i && i < len(m.bindingsMapping) && bit(m.setBindings[len(m.setBindings)-1], i) && !bit(old(m.setBindings)[len(m.setBindings)-1], i) ==> (m.bindingsMapping[i] in m.State) && !(m.bindingsMapping[i] in old(m.State))
+//@   ensures  [keep]   forall i int :: {bit(m.setBindings[len(m.setBindings)-1], i)} 0 <= i && i < 64 && bit(old(m.setBindings)[len(m.setBindings)-1], i) ==> bit(m.setBindings[len(m.setBindings)-1], i)
+//@   ensures  [nonnil] m.State != nil || old(m.State) == nil
+//@ func (Object).Match
+//@   requires m != nil && wfM(m.bindingsMapping, m.setBindings)
+//@   may_panic
+//@   nosafe   all
+//@   modifies m.State, m.setBindings
+//@   ensures  [stack]  len(m.setBindings) == len(old(m.setBindings)) && (forall j int :: {m.setBindings[j]} 0 <= j && j < len(m.setBindings) - 1 ==> m.setBindings[j] == old(m.setBindings)[j])
+//@   ensures  [grow]   forall n string :: {n in m.State} (n in old(m.State)) ==> (n in m.State) && m.State[n] == old(m.State)[n]
+//@   ensures  [record] forall n string :: {n in m.State} (n in m.State) && !(n in old(m.State)) ==> named(m.bindingsMapping, m.setBindings[len(m.setBindings)-1], n)
+//@   ensures  [exact]  forall i int :: {bit(m.setBindings[len(m.setBindings)-1], i)} 0 <= i && i < len(m.bindingsMapping) && bit(m.setBindings[len(m.setBindings)-1], i) && !bit(old(m.setBindings)[len(m.setBindings)-1], i) ==> (m.bindingsMapping[i] in m.State) && !(m.bindingsMapping[i] in old(m.State))
+//@   ensures  [keep]   forall i int :: {bit(m.setBindings[len(m.setBindings)-1], i)} 0 <= i && i < 64 && bit(old(m.setBindings)[len(m.setBindings)-1], i) ==> bit(m.setBindings[len(m.setBindings)-1], i)
+//@   ensures  [nonnil] m.State != nil || old(m.State) == nil
+//@ func (IntegerLiteral).Match
+//@   requires m != nil && wfM(m.bindingsMapping, m.setBindings)
+//@   may_panic
+//@   nosafe   all
+//@   modifies m.State, m.setBindings
+//@   ensures  [stack]  len(m.setBindings) == len(old(m.setBindings)) && (forall j int :: {m.setBindings[j]} 0 <= j && j < len(m.setBindings) - 1 ==> m.setBindings[j] == old(m.setBindings)[j])
+//@   ensures  [grow]   forall n string :: {n in m.State} (n in old(m.State)) ==> (n in m.State) && m.State[n] == old(m.State)[n]
+//@   ensures  [record] forall n string :: {n in m.State} (n in m.State) && !(n in old(m.State)) ==> named(m.bindingsMapping, m.setBindings[len(m.setBindings)-1], n)
+//@   ensures  [exact]  forall i int :: {bit(m.setBindings[len(m.setBindings)-1], i)} 0 <= i && i < len(m.bindingsMapping) && bit(m.setBindings[len(m.setBindings)-1], i) && !bit(old(m.setBindings)[len(m.setBindings)-1], i) ==> (m.bindingsMapping[i] in m.State) && !(m.bindingsMapping[i] in old(m.State))
+//@   ensures  [keep]   forall i int :: {bit(m.setBindings[len(m.setBindings)-1], i)} 0 <= i && i < 64 && bit(old(m.setBindings)[len(m.setBindings)-1], i) ==> bit(m.setBindings[len(m.setBindings)-1], i)
+//@   ensures  [nonnil] m.State != nil || old(m.State) == nil
+//@ func (TrulyConstantExpression).Match
+//@   requires m != nil && wfM(m.bindingsMapping, m.setBindings)
+//@   may_panic
+//@   nosafe   all
+//@   modifies m.State, m.setBindings
+//@   ensures  [stack]  len(m.setBindings) == len(old(m.setBindings)) && (forall j int :: {m.setBindings[j]} 0 <= j && j < len(m.setBindings) - 1 ==> m.setBindings[j] == old(m.setBindings)[j])
+//@   ensures  [grow]   forall n string :: {n in m.State} (n in old(m.State)) ==> (n in m.State) && m.State[n] == old(m.State)[n]
+//@   ensures  [record] forall n string :: {n in m.State} (n in m.State) && !(n in old(m.State)) ==> named(m.bindingsMapping, m.setBindings[len(m.setBindings)-1], n)
+//@   ensures  [exact]  forall i int :: {bit(m.setBindings[len(m.setBindings)-1], i)} 0 <= i && i < len(m.bindingsMapping) && bit(m.setBindings[len(m.setBindings)-1], i) && !bit(old(m.setBindings)[len(m.setBindings)-1], i) ==> (m.bindingsMapping[i] in m.State) && !(m.bindingsMapping[i] in old(m.State))
+//@   ensures  [keep]   forall i int :: {bit(m.setBindings[len(m.setBindings)-1], i)} 0 <= i && i < 64 && bit(old(m.setBindings)[len(m.setBindings)-1], i) ==> bit(m.setBindings[len(m.setBindings)-1], i)
+//@   ensures  [nonnil] m.State != nil || old(m.State) == nil
+//@ extern go/ast.Unparen(e ast.Expr) ast.Expr
+//@   pure
+//@ extern go/types.TypeString(typ types.Type, qf types.Qualifier) string
+//@   pure
+//@ extern go/types.Unalias(t types.Type) types.Type
+//@   pure
+//@ extern fmt.Sprintf(format string, a []any) string
+//@   pure
+//@ extern (*go/types.Func).FullName() string
+//@   pure
+//@ extern (*go/types.TypeName).IsAlias() bool
+//@   pure
+//@ extern (*go/types.object).Name() string
+//@   pure
+//@ extern (*go/types.object).Parent() *types.Scope
+//@   pure
+//@ extern (*go/types.object).Pkg() *types.Package
+//@   pure
+//@ extern (*go/types.object).Type() types.Type
+//@   pure
+//@ extern (go/types.Object).Name() string
+//@   pure
+//@ extern (go/types.Object).Parent() *types.Scope
+//@   pure
+//@ extern (go/types.Object).Pkg() *types.Package
+//@   pure
+//@ extern (*go/types.Package).Scope() *types.Scope
+//@   pure
+//@ extern (*go/types.Package).Path() string
+//@   pure
+//@ extern (*go/types.Basic).Name() string
+//@   pure
+//@ func (Symbol).Match
+//@   requires m != nil && wfM(m.bindingsMapping, m.setBindings)
+//@   may_panic
+//@   nosafe   all
+//@   purecall typ.Obj
+//@   modifies m.State, m.setBindings
+//@   ensures  [stack]  len(m.setBindings) == len(old(m.setBindings)) && (forall j int :: {m.setBindings[j]} 0 <= j && j < len(m.setBindings) - 1 ==> m.setBindings[j] == old(m.setBindings)[j])
+//@   ensures  [grow]   forall n string :: {n in m.State} (n in old(m.State)) ==> (n in m.State) && m.State[n] == old(m.State)[n]
+//@   ensures  [record] forall n string :: {n in m.State} (n in m.State) && !(n in old(m.State)) ==> named(m.bindingsMapping, m.setBindings[len(m.setBindings)-1], n)
+//@   ensures  [exact]  forall i int :: {bit(m.setBindings[len(m.setBindings)-1], i)} 0 <= i && i < len(m.bindingsMapping) && bit(m.setBindings[len(m.setBindings)-1], i) && !bit(old(m.setBindings)[len(m.setBindings)-1], i) ==> (m.bindingsMapping[i] in m.State) && !(m.bindingsMapping[i] in old(m.State))
+//@   ensures  [keep]   forall i int :: {bit(m.setBindings[len(m.setBindings)-1], i)} 0 <= i && i < 64 && bit(old(m.setBindings)[len(m.setBindings)-1], i) ==> bit(m.setBindings[len(m.setBindings)-1], i)
+//@   ensures  [nonnil] m.State != nil || old(m.State) == nil
+//@   loop 1   modifies m.State, m.setBindings
+//@   loop 1   invariant [stack]  len(m.setBindings) == len(old(m.setBindings)) && (forall j int :: {m.setBindings[j]} 0 <= j && j < len(m.setBindings) - 1 ==> m.setBindings[j] == old(m.setBindings)[j])
+//@   loop 1   invariant [grow]   forall n string :: {n in m.State} (n in old(m.State)) ==> (n in m.State) && m.State[n] == old(m.State)[n]
+//@   loop 1   invariant [record] forall n string :: {n in m.State} (n in m.State) && !(n in old(m.State)) ==> named(m.bindingsMapping, m.setBindings[len(m.setBindings)-1], n)
+//@   loop 1   invariant [exact]  forall i int :: {bit(m.setBindings[len(m.setBindings)-1], i)} 0 <= i && i < len(m.bindingsMapping) && bit(m.setBindings[len(m.setBindings)-1], i) && !bit(old(m.setBindings)[len(m.setBindings)-1], i) ==> (m.bindingsMapping[i] in m.State) && !(m.bindingsMapping[i] in old(m.State))
+//@   loop 1   invariant [keep]   forall i int :: {bit(m.setBindings[len(m.setBindings)-1], i)} 0 <= i && i < 64 && bit(old(m.setBindings)[len(m.setBindings)-1], i) ==> bit(m.setBindings[len(m.setBindings)-1], i)
+//@   loop 1   invariant [nonnil] m.State != nil || old(m.State) == nil
 
 //@ func (*Matcher).set
 //@   requires m != nil && m.State != nil && wfM(m.bindingsMapping, m.setBindings) && wfB(m.bindingsMapping, b)
@@ -195,8 +472,18 @@ package pattern
 //@ ghost sat(w int, p Node, s bool) bool
 //@ ghost nfields(p Node) int
 //@ ghost fieldAt(p Node, i int) Node
+// no index or slice expression of symbolToIndexSymbol can go out of range, for any string
+//@ extern strings.IndexAny(s string, chars string) int
+//@   pure
+//@   ensures result == -1 || (0 <= result && result < len(s))
+//@   ensures result >= 0 && len(chars) == 1 ==> s[result] == chars[0]
+//@ extern strings.LastIndex(s string, substr string) int
+//@   pure
+//@   ensures result == -1 || (0 <= result && result + len(substr) <= len(s))
+//@ extern strings.TrimPrefix(s string, prefix string) string
+//@   pure
+//@   ensures len(result) <= len(s)
 //@ func symbolToIndexSymbol
-//@   trusted
 //@   pure
 //@ group satdef
 //@ axiom [sat_or]      forall w int, p Node, s bool :: {sat(w, p, s)} istype(p, Or) && sat(w, p, s) ==> (exists k int :: {astype(p, Or).Nodes[k]} 0 <= k && k < len(astype(p, Or).Nodes) && sat(w, astype(p, Or).Nodes[k], s))
